@@ -314,7 +314,7 @@ var c15Tokens = []uint64{100, 30, 7}
 type c15Val struct {
 	addr     sdk.ValAddress
 	bonded   bool
-	tokens   uint64
+	tokens   *big.Int
 	active   bool
 	since    time.Time
 	sinceSec int64
@@ -368,13 +368,17 @@ func VerifC15CalculatePrices() {
 		v := &vals[i]
 		v.addr = venv.ValAddr(i + 1)
 		v.bonded = vs.Bool("bonded")
-		v.tokens = c15Tokens[i] // concrete: symbolic stake sizes belong to C06 (VerifC06CalculatePrices)
+		if vs.Param("sym_tokens") == 1 {
+			v.tokens = vs.BigU("tokens", 64) // C06-H3: arbitrary stake
+		} else {
+			v.tokens = new(big.Int).SetUint64(c15Tokens[i])
+		}
 		st := stakingtypes.Unbonded
 		if v.bonded {
 			st = stakingtypes.Bonded
-			totalBonded = new(big.Int).Add(totalBonded, new(big.Int).SetUint64(v.tokens))
+			totalBonded = new(big.Int).Add(totalBonded, v.tokens)
 		}
-		e.staking.Vals = append(e.staking.Vals, stakingtypes.Validator{OperatorAddress: v.addr.String(), Status: st, Tokens: sdkmath.NewIntFromUint64(v.tokens)})
+		e.staking.Vals = append(e.staking.Vals, stakingtypes.Validator{OperatorAddress: v.addr.String(), Status: st, Tokens: sdkmath.NewIntFromBigInt(v.tokens)})
 		v.active = vs.Bool("active")
 		v.sinceSec = vs.I64("since_sec")
 		sinceNsec := vs.I64("since_nsec")
@@ -443,7 +447,7 @@ func VerifC15CalculatePrices() {
 			pr := v.prices[j]
 			if v.bonded && v.active && v.hasList && pr.SignalPriceStatus != types.SIGNAL_PRICE_STATUS_UNSPECIFIED &&
 				pr.Timestamp >= nowSec-feeds[j].Interval {
-				infos = append(infos, types.NewValidatorPriceInfo(pr.SignalPriceStatus, sdkmath.NewIntFromUint64(v.tokens), pr.Price, pr.Timestamp))
+				infos = append(infos, types.NewValidatorPriceInfo(pr.SignalPriceStatus, sdkmath.NewIntFromBigInt(v.tokens), pr.Price, pr.Timestamp))
 			}
 		}
 		want, werr := k.CalculatePrice(ctx, feeds[j], infos, quorum)
